@@ -33,7 +33,10 @@ MANIFEST = {
     "category": "proof",
 }
 
-REQUIRED = ["KV.C10.probing_accept_has_empty_bucket", "KV.C10.trie_duplicate_iff", "KV.C10.mapAndVocab_ok", "KV.C10.constants_ok", "KV.C10.accepted_wellformed", "KV.C10.build_total", "KV.C10.trie_error_iff",
+REQUIRED = ["KV.C10.probing_accept_wellformed", "KV.C10.probing_accept_wellformed_prefixClosed", "KV.C10.parsed_core",
+            "KV.C10.trie_reject_of_buildTable_missingContext", "KV.C10.buildTable_not_ok_of_trie_reject",
+            "KV.C10.duplicate_keys_of_buildTable_duplicate", "KV.C10.loader_probing_verdict_eq_build_partial", "KV.C10.tabInv_initial",
+            "KV.C10.probing_accept_has_empty_bucket", "KV.C10.trie_duplicate_iff", "KV.C10.mapAndVocab_ok", "KV.C10.constants_ok", "KV.C10.accepted_wellformed", "KV.C10.build_total", "KV.C10.trie_error_iff",
             "KV.C10.probing_error_classes", "KV.C10.trie_accept_wellformed", "KV.C10.trie_accept_wellformed_full",
             "KV.C10.parse_unigramsCover", "KV.C10.header_accept_sound", "KV.C10.lookups_in_range",
             "KV.C10.header_mismatch", "KV.C10.header_no_ub"]
